@@ -109,7 +109,8 @@ def pMsgs : P Unit := do
   pure ()
 
 def pSpec : P TSpec := do
-  let pkg ← tok
+  -- "<pkg>" or "<pkg>+<n>" (n schemas live in a second source file: irrelevant for the model)
+  let pkg := ((← tok).splitOn "+").headD ""
   let nS ← num
   let schemas ← rep nS (do
     let kind ← tok; let name ← tok
